@@ -9,6 +9,7 @@ import (
 	"os"
 	"path/filepath"
 	"regexp"
+	"sort"
 	"strings"
 	"sync"
 	"sync/atomic"
@@ -24,6 +25,48 @@ import (
 
 // builtin types the SetTypeAttr/GetTypeAttr operations are rendered on (chosen by case number)
 var typeNames = []string{"int", "str", "list", "dict", "float", "tuple", "ValueError", "bytes", "set", "object"}
+
+// types exported by Go-implemented modules ("module.Name"), enumerated from the live interpreter by the driver
+// and handed to the worker processes; the type an embedder would register is gpvembed.EType
+var stdTypes []string
+
+var embedType = py.NewType("EType", "a type registered through the embedding API by the verification harness")
+
+func init() {
+	py.RegisterModule(&py.ModuleImpl{Info: py.ModuleInfo{Name: "gpvembed", Doc: "module registered by the verification harness"},
+		Globals: py.StringDict{"EType": embedType}})
+}
+
+// liveStdTypes: every type defined in Go that a registered module (named like the directories of stdlib/)
+// exports in its globals and that builtins does not already have.
+func liveStdTypes(repo string) []string {
+	ctx := py.NewContext(py.ContextOpts{})
+	defer ctx.Close()
+	inBuiltins := map[*py.Type]bool{}
+	for _, v := range ctx.Store().Builtins.Globals {
+		if t, ok := v.(*py.Type); ok {
+			inBuiltins[t] = true
+		}
+	}
+	dirs, _ := os.ReadDir(filepath.Join(repo, "stdlib"))
+	var out []string
+	for _, d := range dirs {
+		if !d.IsDir() {
+			continue
+		}
+		impl := py.GetModuleImpl(d.Name())
+		if impl == nil {
+			continue
+		}
+		for name, v := range impl.Globals {
+			if t, ok := v.(*py.Type); ok && t.Name != "" && t.Flags&py.TPFLAGS_HEAPTYPE == 0 && !inBuiltins[t] {
+				out = append(out, d.Name()+"."+name)
+			}
+		}
+	}
+	sort.Strings(out)
+	return out
+}
 
 var umodDir string
 
@@ -49,7 +92,16 @@ var gated sync.Map // py.Context -> *cx (only contexts under the replay schedule
 // render: one template per operation constructor. n makes the names private to one case so that
 // state left behind in shared places by earlier cases cannot be mistaken for this case's.
 func render(o OpT, val string, n int) string {
-	t := typeNames[n%len(typeNames)]
+	// the concrete type of a SetTypeAttr/GetTypeAttr operation: its kind comes from the specification,
+	// the type of that kind rotates with the case number
+	t, imp := typeNames[n%len(typeNames)], ""
+	switch o.A {
+	case "stdlib":
+		t = stdTypes[n%len(stdTypes)]
+		imp = "import " + strings.SplitN(t, ".", 2)[0] + "\n"
+	case "embedder":
+		t, imp = "gpvembed.EType", "import gpvembed\n"
+	}
 	switch o.Op {
 	case "SetGlobal":
 		return fmt.Sprintf("g%d = '%s'\n", n, val)
@@ -78,9 +130,9 @@ func render(o OpT, val string, n int) string {
 	case "Print":
 		return fmt.Sprintf("print('%s')\n", val)
 	case "SetTypeAttr":
-		return fmt.Sprintf("%s.tattr%d = '%s'\n", t, n, val)
+		return fmt.Sprintf("%s%s.tattr%d = '%s'\n", imp, t, n, val)
 	case "GetTypeAttr":
-		return fmt.Sprintf("print(%s.tattr%d)\n", t, n)
+		return fmt.Sprintf("%sprint(%s.tattr%d)\n", imp, t, n)
 	case "MutateImplObject":
 		return fmt.Sprintf("import os\nos.environ['GPV%d'] = '%s'\n", n, val)
 	case "ReadImplObject":
@@ -532,7 +584,7 @@ func soloWorker(jobFile string) {
 	if err != nil || json.Unmarshal(b, &job) != nil || len(job.Cases) != 1 {
 		os.Exit(11)
 	}
-	opList, meta = job.OpList, job.Meta
+	opList, meta, stdTypes = job.OpList, job.Meta, job.StdTypes
 	initRuntime(job.Scratch)
 	if replayCase(job.Cases[0], 1, true) == nil {
 		os.Exit(0)
@@ -552,7 +604,7 @@ func stressWorker(jobFile string) {
 		fmt.Fprintln(os.Stderr, "stress worker:", err)
 		os.Exit(3)
 	}
-	opList, meta = job.OpList, job.Meta
+	opList, meta, stdTypes = job.OpList, job.Meta, job.StdTypes
 	initRuntime(job.Scratch)
 	stdlib.VerifYield = nil
 	res := &stressResult{}
